@@ -28,6 +28,7 @@ import (
 
 	"github.com/prometheus/prometheus/internal/verif/vsched"
 	"github.com/prometheus/prometheus/internal/verif/vx"
+	"github.com/prometheus/prometheus/model/histogram"
 	"github.com/prometheus/prometheus/model/labels"
 	"github.com/prometheus/prometheus/storage"
 	"github.com/prometheus/prometheus/tsdb/chunkenc"
@@ -39,6 +40,14 @@ type c05Txn struct {
 	T        int64
 	V        float64
 	Rollback bool
+}
+
+// hist: transactions whose name starts with "h" append native histograms (Sum = V) instead of
+// floats, so that the histogram append/commit path of the isolation bookkeeping is explored too.
+func (tx c05Txn) hist() bool { return strings.HasPrefix(tx.Name, "h") }
+
+func c05Hist(v float64) *histogram.Histogram {
+	return &histogram.Histogram{Schema: 0, Count: 1, Sum: v, PositiveSpans: []histogram.Span{{Offset: 0, Length: 1}}, PositiveBuckets: []int64{1}}
 }
 
 type c05Scenario struct {
@@ -74,6 +83,8 @@ func c05Scenarios() []c05Scenario {
 		// and a later appender X committed to a subset of L's series (exercises the isolation low
 		// watermark with more than one open reader). Large space: preemption bound 1 in the quick tier.
 		{Name: "3txn-2q-staggered", Pre: pre3[:1], Txns: []c05Txn{{"L", []string{"s1", "s2"}, 20, 100, false}, {"A2", []string{"s3"}, 21, 200, false}, {"X", []string{"s1"}, 22, 300, false}}, Queriers: 2, Staggered: true, ThoroughOnly: true, QuickBound: 1},
+		// one native-histogram transaction over two float series (type change => new chunk per series)
+		{Name: "1txn-hist-1q", Pre: pre3[:1], Txns: []c05Txn{{"hA", []string{"s1", "s2"}, 20, 100, false}}, Queriers: 1},
 	}
 }
 
@@ -130,7 +141,13 @@ func c05Body(sc c05Scenario, obs *c05Obs) func() {
 			var err error
 			app := h.Appender(ctx)
 			for _, sk := range tx.Series {
-				if _, err := app.Append(0, c05Series[sk], tx.T, tx.V); err != nil {
+				var err error
+				if tx.hist() {
+					_, err = app.AppendHistogram(0, c05Series[sk], tx.T, c05Hist(tx.V), nil)
+				} else {
+					_, err = app.Append(0, c05Series[sk], tx.T, tx.V)
+				}
+				if err != nil {
 					obsMu.Lock()
 					obs.appendErr[tx.Name+"/"+sk] = err.Error()
 					obsMu.Unlock()
@@ -211,8 +228,20 @@ func c05Drain(q storage.Querier, errOut *string) map[string]map[int64]float64 {
 		m := map[int64]float64{}
 		it := s.Iterator(nil)
 		last := int64(math.MinInt64)
-		for it.Next() == chunkenc.ValFloat {
-			t, v := it.At()
+		for vt := it.Next(); vt != chunkenc.ValNone; vt = it.Next() {
+			var t int64
+			var v float64
+			switch vt {
+			case chunkenc.ValFloat:
+				t, v = it.At()
+			case chunkenc.ValHistogram:
+				var h *histogram.Histogram
+				t, h = it.AtHistogram(nil)
+				v = h.Sum
+			default:
+				*errOut = fmt.Sprintf("series %s: unexpected sample type %v", k, vt)
+				continue
+			}
 			if t <= last {
 				*errOut = fmt.Sprintf("series %s: timestamps not increasing (%d after %d)", k, t, last)
 			}
